@@ -42,7 +42,7 @@ func init() {
 			"the wall clock only moves forward inside a bubble; TLS is not simulated",
 			"the attacker tries MD5/hex/base64 of the counter values within +-64 of identifiers disclosed to it",
 		},
-		RequiredProbes: []string{"c11.allowed", "c11.denied", "c11.after-edit", "c11.held-session-after-edit", "c11.entry.wsp-play.granted", "c11.entry.wsp-play.refused", "c11.entry.ws-flv.granted", "c11.entry.ws-flv.refused", "c11.entry.hls-segment.granted", "c11.entry.rtsp-publish.granted", "c11.entry.rtsp-publish.refused", "c11.wsp-foreign-channel-tried", "c11.user-switched-mid-session", "c11.administrator-demoted", "c11.connection-token-list"},
+		RequiredProbes: []string{"c11.allowed", "c11.denied", "c11.after-edit", "c11.held-session-after-edit", "c11.entry.wsp-play.granted", "c11.entry.wsp-play.refused", "c11.entry.ws-flv.granted", "c11.entry.ws-flv.refused", "c11.entry.hls-segment.granted", "c11.entry.rtsp-publish.granted", "c11.entry.rtsp-publish.refused", "c11.wsp-foreign-channel-tried", "c11.user-switched-mid-session", "c11.administrator-demoted", "c11.connection-token-list", "c11.playlist-token-checked"},
 	})
 }
 
@@ -52,6 +52,7 @@ type c11User struct {
 	exists         bool
 }
 
+var c11TokRe = regexp.MustCompile(`token=([^\s&"]+)`)
 var c11SegRe = regexp.MustCompile(`/streams/live/a/(\d+)\.ts`)
 
 func digestResp(user, realm, pw, nonce, method, uri string) string {
@@ -379,6 +380,22 @@ func buildC11(tier string) sim.Scenario {
 				got := res.Status == 200 && strings.HasPrefix(string(res.Body), "#EXTM3U")
 				if !verdict("hls-playlist", user, "pull", "/live/a", got, fmt.Sprintf("status %d", res.Status)) {
 					return
+				}
+				if got {
+					// the playlist handed to this caller names this caller's token and nobody else's
+					for _, tm := range c11TokRe.FindAllStringSubmatch(string(res.Body), -1) {
+						if tm[1] != tok {
+							owner := "nobody known" // (tokens are random: they stay out of the message, which is part of the replayed log)
+							for n, ts := range tokens {
+								if ts[0] == tm[1] {
+									owner = n
+								}
+							}
+							w.Fail("C11/token-disclosed", "the playlist served to %s carries a token in its segment URIs that is not the caller's own (it belongs to %s): another caller's credential is handed out", user, owner)
+							return
+						}
+						w.Probe("c11.playlist-token-checked")
+					}
 				}
 				// a segment: through the playlist's own URI when allowed, else a URI of a listed segment with the caller's token
 				pl, _ := streams["/live/a"].Hlsable().M3u8(tok)
